@@ -9,31 +9,39 @@ import (
 )
 
 func (route *Route) Validate() error {
+	if route == nil {
+		return errorsmod.Wrap(ErrInvalidRoute, "nil route")
+	}
 	if err := route.validateRecursive(); err != nil {
 		return errorsmod.Wrapf(ErrInvalidRoute, "%s", err)
 	}
 
 	// Check if the pool is reused
 	// Reuse must be prevented because it causes a problem in the calculation of the slippage
-	defer func() {
-		if r := recover(); r != nil {
-			err := r.(error)
-			panic(errorsmod.Wrapf(ErrInvalidRoute, "%s", err))
-		}
-	}()
-	route.mustNotReusePool(make(map[uint64]bool))
+	if err := route.checkNotReusePool(make(map[uint64]bool)); err != nil {
+		return errorsmod.Wrapf(ErrInvalidRoute, "%s", err)
+	}
 
 	return nil
 }
 
 func (route *Route) validateRecursive() error {
+	if err := sdk.ValidateDenom(route.DenomIn); err != nil {
+		return err
+	}
+	if err := sdk.ValidateDenom(route.DenomOut); err != nil {
+		return err
+	}
 	switch strategy := route.Strategy.(type) {
 	case *Route_Pool:
+		if strategy.Pool == nil {
+			return fmt.Errorf("nil pool")
+		}
 		return nil
 	case *Route_Series:
 		series := strategy.Series
 
-		if len(series.Routes) == 0 {
+		if series == nil || len(series.Routes) == 0 {
 			return fmt.Errorf("empty series")
 		}
 
@@ -57,7 +65,7 @@ func (route *Route) validateRecursive() error {
 	case *Route_Parallel:
 		parallel := strategy.Parallel
 
-		if len(parallel.Routes) == 0 {
+		if parallel == nil || len(parallel.Routes) == 0 {
 			return fmt.Errorf("empty parallel")
 		}
 		if len(parallel.Routes) != len(parallel.Weights) {
@@ -93,29 +101,36 @@ func (route *Route) validateRecursive() error {
 	return UnknownStrategyType
 }
 
-func (route *Route) mustNotReusePool(poolIds map[uint64]bool) {
+// checkNotReusePool is called after validateRecursive, which rejects nil pools, series and parallels.
+func (route *Route) checkNotReusePool(poolIds map[uint64]bool) error {
 	switch strategy := route.Strategy.(type) {
 	case *Route_Pool:
 		poolId := strategy.Pool.PoolId
 		if poolIds[poolId] {
-			panic(fmt.Sprintf("reused pool: %d", poolId))
+			return fmt.Errorf("reused pool: %d", poolId)
 		}
 		poolIds[poolId] = true
 
 	case *Route_Series:
 		series := strategy.Series
 
-		for _, r := range series.Routes {
-			r.mustNotReusePool(poolIds)
+		for i := range series.Routes {
+			if err := series.Routes[i].checkNotReusePool(poolIds); err != nil {
+				return err
+			}
 		}
 
 	case *Route_Parallel:
 		parallel := strategy.Parallel
 
-		for _, r := range parallel.Routes {
-			r.mustNotReusePool(poolIds)
+		for i := range parallel.Routes {
+			if err := parallel.Routes[i].checkNotReusePool(poolIds); err != nil {
+				return err
+			}
 		}
 	}
+
+	return nil
 }
 
 func (route *Route) InspectRoute(
